@@ -43,3 +43,20 @@ func init() {
 		thorough:      []buildSpec{plain(16)},
 	}
 }
+
+func init() {
+	props["C20"] = propSpec{
+		level: "exploration",
+		rule: "seeded controller scripts over {Queue.Iterator, Deque.Iterator, IteratorReverse, ProducerBlocking, ProducerReverseBlocking}: initial contents 0-6 (strictly increasing ids), then 4-17 actions from " +
+			"{iterator step (own goroutine, may park), add at the iterator's far end, remove/pop (in a third of the scripts), Close, cancel}, optionally two iterators on one queue, GOMAXPROCS 1/2/4/16; " +
+			"oracle: no panic, only added ids, no id twice, exact order of addition absent removals (increasing subsequence with removals), io.EOF after Close having seen everything, return after cancel, non-blocking iterators end at the end; " +
+			"a step the model requires to return is decided at quiescence (census) when it has not; plus hook scenarios landing an Add / cancel / remove-to-empty-then-Add between the look at the tail and cond.Wait. " +
+			"distinct_nontrivial = distinct (iterator kind, removal, two-iterators, initial size, GOMAXPROCS, script length class) with >= 2 values yielded, plus hook configurations",
+		assumptions: append([]string{"with removals, 'parked while an unseen item is present' is asserted only for the Queue iterator (an item present now and newer than everything yielded); a Deque blocking producer whose cursor element was popped is observed, not judged",
+			"additions behind the cursor (other end of a Deque) are not generated"}, commonAssumptions...),
+		floorEvals:    300,
+		floorDistinct: 60,
+		quick:         []buildSpec{plain(8)},
+		thorough:      []buildSpec{plain(16)},
+	}
+}
